@@ -24,6 +24,10 @@ def prices_from_rows(rows, adjust):
     out = {}
     prev_close = float('nan')
     for y, m, d, o, c, a in sorted(rows, key=lambda r: (r[0], r[1], r[2])):
+        if c is None:
+            # a bar without any price (a suspended asset): open and close are both the latest earlier observation
+            out[D.date(y, m, d)] = (prev_close, prev_close)
+            continue
         close = a if adjust else c
         if o is None:
             op = prev_close              # an empty Open cell: the latest earlier observation is the previous close
